@@ -120,25 +120,39 @@ def make(M, cfg, default=None, refuse=None, crc=None, transport="udp"):
 
 
 def discover_blocks(M, cfg, crc=None):
-    """[(command, sensors)] as passed to _map_response by read_runtime_data() for this configuration (after the
-    capability fallbacks have settled), plus the inverter."""
+    """[(command, sensors)] as passed to _map_response by read_runtime_data() for this configuration, collected
+    over up to 4 consecutive polls (every poll that returns contributes, so transient states after a capability
+    fallback or after a failed request are included), plus the inverter.
+    cfg['fail_at'] = k makes the k-th read request after read_device_info() fail once (no response)."""
     inv, fake = make(M, cfg, default=lambda a: 1 if cfg.get("battery", True) else 0, crc=crc)
-    rec = []
+    counter = [0]
+    fail_at = cfg.get("fail_at")
+
+    def silent(op):
+        counter[0] += 1
+        return fail_at is not None and counter[0] - 1 == fail_at
+    fake.silent = silent
+    rec, cur_call = [], []
     orig = type(inv)._map_response
 
     def spy(response, sensors):
-        rec.append((response.command, tuple(sensors)))
+        cur_call.append((response.command, tuple(sensors)))
         return orig(response, sensors)
     inv._map_response = spy
-    for _ in range(3):
-        rec.clear()
+    seen = set()
+    for _ in range(4):
+        cur_call.clear()
         try:
             drive(inv.read_runtime_data())
-            break
-        except M.exceptions.RequestRejectedException:
+        except (M.exceptions.RequestRejectedException, M.exceptions.RequestFailedException):
             continue
+        for cmd, sensors in cur_call:
+            k = (type(cmd).__name__, cmd.first_address, cmd.value, tuple(id(x) for x in sensors))
+            if k not in seen:
+                seen.add(k)
+                rec.append((cmd, sensors))
     del inv._map_response
-    return inv, fake, list(rec)
+    return inv, fake, rec
 
 
 def et_configs(M, tier):
@@ -150,6 +164,18 @@ def et_configs(M, tier):
         for p in POWERS:
             for r in refusals:
                 cfgs.append({"family": "ET", "serial": s, "rated_power": p, "refuse": list(r)})
+    return cfgs
+
+
+def et_fault_configs(M, tier):
+    """Configurations with one lost request at every position of the first poll (fault enumeration for C14/C15)."""
+    cfgs = []
+    serials = et_serials(M, all_tags=False)
+    for s in serials:
+        for p in ((15000, 25000) if tier == "quick" else POWERS):
+            for r in (("meter_ext2",), ("meter_ext2", "meter_ext"), ("battery2",), ()):
+                for k in range(0, 8):
+                    cfgs.append({"family": "ET", "serial": s, "rated_power": p, "refuse": list(r), "fail_at": k})
     return cfgs
 
 
